@@ -3,12 +3,38 @@
 package gorums
 
 import (
+	"context"
 	"errors"
+	"net"
+	"time"
+
+	spb "google.golang.org/genproto/googleapis/rpc/status"
+	"google.golang.org/grpc/codes"
+	"google.golang.org/grpc/status"
+	"google.golang.org/protobuf/proto"
+
+	"github.com/relab/gorums/ordering"
 )
 
 // Stubs: Go models of environment functions. The engine redirects calls of the function
-// named in the //verif:stub directive to the stub; the native build ignores the directive
-// and calls the real function (so every native replay also validates the stub).
+// named in a //verif:stub directive to the stub below it; the native build ignores the
+// directives and calls the real functions (so every native replay also validates the stubs).
+//
+// Opaque constructors: pure constructors of option/handle values the library never looks
+// into; the engine returns an opaque non-nil value.
+//
+//verif:opaque google.golang.org/grpc.WithDefaultCallOptions
+//verif:opaque google.golang.org/grpc.CallContentSubtype
+//verif:opaque google.golang.org/grpc.WithConnectParams
+//verif:opaque google.golang.org/grpc.WithTransportCredentials
+//verif:opaque google.golang.org/grpc.WithBlock
+//verif:opaque google.golang.org/grpc.WithReturnConnectionError
+//verif:opaque google.golang.org/grpc/credentials/insecure.NewCredentials
+//verif:opaque google.golang.org/grpc.NewServer
+//verif:opaque google.golang.org/grpc/encoding.RegisterCodec
+
+// ---------------------------------------------------------------------------
+// net
 
 var vErrMissingPort = errors.New("missing port in address")
 
@@ -23,4 +49,267 @@ func vstubSplitHostPort(hostport string) (host, port string, err error) {
 		}
 	}
 	return "", "", vErrMissingPort
+}
+
+// Contract: identity on canonical "ip:port" literals supplied by the harness. The address
+// text is carried in the Zone field of the returned TCPAddr and handed back by String.
+//
+//verif:stub net.ResolveTCPAddr
+func vstubResolveTCPAddr(network, address string) (*net.TCPAddr, error) {
+	if len(address) == 0 {
+		return nil, vErrMissingPort
+	}
+	return &net.TCPAddr{Zone: address}, nil
+}
+
+//verif:stub (*net.TCPAddr).String
+func vstubTCPAddrString(a *net.TCPAddr) string {
+	if a == nil {
+		return "<nil>"
+	}
+	return a.Zone
+}
+
+// ---------------------------------------------------------------------------
+// context: a cancel tree with eagerly created Done channels. Every operation that touches
+// shared state is one atomic engine transition (vAtomic ... vAtomicEnd).
+
+type vCtx struct {
+	parent   context.Context
+	done     chan struct{} // nil for value contexts over a never-cancelled parent
+	err      error
+	children []*vCtx
+	isValue  bool
+	key, val interface{}
+}
+
+func (c *vCtx) Deadline() (time.Time, bool) { return time.Time{}, false }
+
+func (c *vCtx) Done() <-chan struct{} { return c.done }
+
+func (c *vCtx) Err() error {
+	if c.isValue {
+		return c.parent.Err()
+	}
+	vAtomic(0, c)
+	e := c.err
+	vAtomicEnd()
+	return e
+}
+
+func (c *vCtx) Value(key interface{}) interface{} {
+	if c.isValue && c.key == key {
+		return c.val
+	}
+	return c.parent.Value(key)
+}
+
+func (c *vCtx) cancel(err error) {
+	vAtomic(2, c)
+	c.cancelLocked(err, true)
+	vAtomicEnd()
+}
+
+func (c *vCtx) cancelLocked(err error, detach bool) {
+	if c.err != nil {
+		return
+	}
+	c.err = err
+	close(c.done)
+	for _, ch := range c.children {
+		ch.cancelLocked(err, false)
+	}
+	c.children = nil
+	if detach {
+		if p := vCancelParent(c.parent); p != nil {
+			for i, x := range p.children {
+				if x == c {
+					p.children = append(append([]*vCtx{}, p.children[:i]...), p.children[i+1:]...)
+					break
+				}
+			}
+		}
+	}
+}
+
+// vCancelParent finds the nearest cancelable vCtx ancestor.
+func vCancelParent(p context.Context) *vCtx {
+	for {
+		c, ok := p.(*vCtx)
+		if !ok {
+			return nil
+		}
+		if !c.isValue {
+			return c
+		}
+		p = c.parent
+	}
+}
+
+func vNewCancelCtx(parent context.Context) *vCtx {
+	c := &vCtx{parent: parent, done: make(chan struct{})}
+	vAtomic(2, c)
+	if p := vCancelParent(parent); p != nil {
+		if p.err != nil {
+			c.cancelLocked(p.err, false)
+		} else {
+			p.children = append(p.children, c)
+		}
+		vAtomicEnd()
+		return c
+	}
+	vAtomicEnd()
+	if pd := parent.Done(); pd != nil {
+		// foreign cancelable parent: watch it (as the real package does)
+		go func() {
+			select {
+			case <-pd:
+				c.cancel(parent.Err())
+			case <-c.done:
+			}
+		}()
+	}
+	return c
+}
+
+//verif:stub context.WithCancel
+func vstubWithCancel(parent context.Context) (context.Context, context.CancelFunc) {
+	c := vNewCancelCtx(parent)
+	return c, func() { c.cancel(context.Canceled) }
+}
+
+// Deadlines are environment events: the timer may fire at any scheduling point while the
+// environment is not frozen.
+//
+//verif:stub context.WithTimeout
+func vstubWithTimeout(parent context.Context, d time.Duration) (context.Context, context.CancelFunc) {
+	c := vNewCancelCtx(parent)
+	go func() {
+		select {
+		case <-vEnvTick():
+			c.cancel(context.DeadlineExceeded)
+		case <-c.done:
+		}
+	}()
+	return c, func() { c.cancel(context.Canceled) }
+}
+
+//verif:stub context.WithDeadline
+func vstubWithDeadline(parent context.Context, t time.Time) (context.Context, context.CancelFunc) {
+	return vstubWithTimeout(parent, 0)
+}
+
+//verif:stub context.WithValue
+func vstubWithValue(parent context.Context, key, val interface{}) context.Context {
+	return &vCtx{parent: parent, done: vDoneOf(parent), isValue: true, key: key, val: val}
+}
+
+func vDoneOf(p context.Context) chan struct{} {
+	if c, ok := p.(*vCtx); ok {
+		return c.done
+	}
+	return nil // Background/TODO
+}
+
+// ---------------------------------------------------------------------------
+// time
+
+//verif:stub time.After
+func vstubTimeAfter(d time.Duration) <-chan time.Time {
+	ch := make(chan time.Time, 1)
+	go func() {
+		<-vEnvTick()
+		ch <- time.Time{}
+	}()
+	return ch
+}
+
+// ---------------------------------------------------------------------------
+// errors / status / proto
+
+func vComparable(x interface{}) bool { return true } // engine: types.Comparable(dynamic type)
+
+//verif:stub errors.Is
+func vstubErrorsIs(err, target error) bool {
+	if err == nil || target == nil {
+		return err == target
+	}
+	isComparable := vComparable(target)
+	for {
+		if isComparable && err == target {
+			return true
+		}
+		if x, ok := err.(interface{ Is(error) bool }); ok && x.Is(target) {
+			return true
+		}
+		switch x := err.(type) {
+		case interface{ Unwrap() error }:
+			err = x.Unwrap()
+			if err == nil {
+				return false
+			}
+		case interface{ Unwrap() []error }:
+			for _, e := range x.Unwrap() {
+				if vstubErrorsIs(e, target) {
+					return true
+				}
+			}
+			return false
+		default:
+			return false
+		}
+	}
+}
+
+// status.FromError with errors.As (reflection) replaced by an Unwrap loop.
+//
+//verif:stub google.golang.org/grpc/status.FromError
+func vstubStatusFromError(err error) (*status.Status, bool) {
+	if err == nil {
+		return nil, true
+	}
+	type grpcstatus interface{ GRPCStatus() *status.Status }
+	if gs, ok := err.(grpcstatus); ok {
+		st := gs.GRPCStatus()
+		if st == nil {
+			return status.New(codes.Unknown, err.Error()), false
+		}
+		return st, true
+	}
+	for e := err; e != nil; {
+		u, ok := e.(interface{ Unwrap() error })
+		if !ok {
+			break
+		}
+		e = u.Unwrap()
+		if gs, ok := e.(grpcstatus); ok {
+			st := gs.GRPCStatus()
+			if st == nil {
+				return status.New(codes.Unknown, err.Error()), false
+			}
+			p := st.Proto()
+			p.Message = err.Error()
+			return status.FromProto(p), true
+		}
+	}
+	return status.New(codes.Unknown, err.Error()), false
+}
+
+// proto.Clone on the two message types the library clones: field copy.
+//
+//verif:stub google.golang.org/protobuf/proto.Clone
+func vstubProtoClone(m proto.Message) proto.Message {
+	switch x := m.(type) {
+	case *spb.Status:
+		if x == nil {
+			return x
+		}
+		return &spb.Status{Code: x.Code, Message: x.Message, Details: x.Details}
+	case *ordering.Metadata:
+		if x == nil {
+			return x
+		}
+		return &ordering.Metadata{MessageID: x.MessageID, Method: x.Method, Status: x.Status}
+	}
+	panic("verif: proto.Clone of unsupported message type")
 }
